@@ -366,7 +366,9 @@ func (s *sim) rangeQuery() *core.Violation {
 	call := func(c jsonapi.Collection, sz, nm uint) (page []string, isNil bool, p *core.Panic) {
 		p = core.Call(func() {
 			res := jsonapi.Range(c, append([]string{}, ids...), lib, append([]string{}, rules...), sz, nm)
-			if res == nil {
+			// nil, or a nil pointer wrapped in the interface (it would pass a comparison with
+			// nil and break at the first write through it)
+			if res == nil || (reflect.ValueOf(res).Kind() == reflect.Ptr && reflect.ValueOf(res).IsNil()) {
 				isNil = true
 				return
 			}
